@@ -184,6 +184,10 @@ def _build_spec(case, PROP, r):
             n = r.choice([0, 1, 2, 30, 64, 65])
             l['fh_id'] = gen.name(r, '', n, hc=True) if n else ''
             l['fh_sequence_number'] = r.choice([1, 9, 10, 99, 12345, 10 ** 9, 10 ** 10 - 1])
+            if r.random() < 0.4:
+                l['fh_identifier'] = r.choice(['0', '1', 'A', 'Z', '_', ' '])
+            if r.random() < 0.3:
+                l['as_object'] = True
         return sp
     sp = gen.base_spec(r.choice([128, 8192]))
     c = metagen.Ctx(r, sp, avoid=avoid)
@@ -394,6 +398,14 @@ def run_case(case, PROP):
             bump('origin-creation-time-left-to-library')
     if case['kind'] == 'retry' and rejected and run.data is not None:
         bump('retried-after-rejected-call')
+    if run.data is not None:
+        n_sa = sum(1 for i, o in enumerate(sp['ops']) if o.get('via') == 'set_attributes' and i < len(run.built.outcomes) and run.built.outcomes[i][0] == 'ok')
+        if n_sa:
+            bump('route-later-set_attributes', n_sa)
+    if run.data is not None and any(l.get('as_object') for l in sp.get('lfs', [])):
+        bump('file-header-given-as-object')
+    if run.data is not None and any(l.get('fh_identifier') not in (None, '0') for l in sp.get('lfs', [])):
+        bump('file-header-identifier-chosen')
     if case['kind'] == 'setnames' and run.data is not None:
         if any(o.get('set_name') == '' for o in sp['ops']):
             bump('empty-set-name')
